@@ -66,7 +66,7 @@ def gen_cases(rng: random.Random, n: int, styles, kinds=None):
     from .props import c08
     out = []
     for k in range(n):
-        pool = list(kinds) if kinds else ["mask", "nonzero", "setitem", "setitem", "setitem_mask", "intindex", "cumsum", "where", "trilu", "broadcast_arrays", "creation"]
+        pool = list(kinds) if kinds else ["mask", "nonzero", "setitem", "setitem", "setitem_mask", "intindex", "cumsum", "where", "trilu", "broadcast_arrays", "creation", "setitem_int"]
         kind = pool[k % len(pool)]
         rank = rng.choice([1, 1, 2, 2, 3])
         shape = tuple(rng.choice([1, 2, 3, 4]) for _ in range(rank))
@@ -245,6 +245,27 @@ def gen_cases(rng: random.Random, n: int, styles, kinds=None):
                     return {"y": np.arange(a0, int(feeds["n"]), st, dtype=adt)}
             out.append(Case(kind, (kind, form, rk, style, dt) + ((line,) if form in ("arange", "const_arg", "const_like", "full_static") else ()), ins, build,
                             {"y": line}, ref, (concrete, shape, "static")))
+        elif kind == "setitem_int":
+            idt = rng.choice(INT_DTYPES[:-1])
+            ishape = rng.choice([(), (1,), (2,), (3,), (2, 2)])
+            def build(dims=dims, ishape=ishape, dtype=dtype, idt=idt):
+                x = ndx.array(shape=dims, dtype=impl.dt(dtype)); i = ndx.array(shape=ishape, dtype=impl.dt(idt))
+                v = ndx.array(shape=(), dtype=impl.dt(dtype))
+                y = x.copy()
+                y[i] = v
+                return {"x": x, "i": i, "v": v}, {"y": y}
+            def ref(feeds):
+                y = feeds["x"].copy()
+                y[feeds["i"].astype(np.int64)] = feeds["v"]
+                return {"y": y}
+            def concrete(rng, sh, ishape=ishape, idt=idt, dtype=dtype):
+                n = sh[0]
+                if n == 0:
+                    raise ValueError("empty leading axis")
+                vals = [rng.randrange(0 if idt.startswith("u") else -n, n) for _ in range(int(np.prod(ishape)))]
+                return {"x": _data(rng, sh, dtype), "i": np.array(vals, dtype=idt).reshape(ishape), "v": np.array(66, dtype=dtype)}
+            out.append(Case(kind, (kind, rank, ishape, style, idt, dtype), ["x", "i", "v"], build,
+                            {"y": f"tg_render setitem_int {rank} {CODE[idt]}"}, ref, (concrete, shape, style)))
         elif kind == "intindex":
             idt = rng.choice(INT_DTYPES[:-1])
             ishape = rng.choice([(), (0,), (1,), (3,), (2, 2)])
